@@ -67,8 +67,15 @@ def gen_one(rng, k):
     phases = []
     for _ in range(rng.choice([0, 1, 1, 2, 3])):
         phases.append({"c": gen_chunks(rng), "s": gen_chunks(rng)})
-    end = rng.choice(["c_half", "c_half", "s_half", "s_half", "c_half_race", "s_half_race"])
+    end = rng.choice(["c_half", "c_half", "c_half", "s_half", "s_half", "s_half", "c_half_race", "c_half_race",
+                      "s_half_race", "s_half_race", "c_half_reply", "s_half_reply"])
     last = None
+    if end.endswith("reply"):
+        # the closer sends, half-closes and waits; the other side answers only after it has seen the EOF
+        last = {"c": gen_chunks(rng, False), "s": gen_chunks(rng, False)}
+        other = "s" if end[0] == "c" else "c"
+        if not last[other]:
+            last[other] = [[rng.randrange(1, 500), rng.getrandbits(30)]]
     if end.endswith("race"):
         last = {"c": gen_chunks(rng), "s": gen_chunks(rng)}
         # the side that keeps streaming sends a lot
@@ -113,6 +120,15 @@ def to_case(s):
         ev += ["fC", "z"]
     elif end == "s_half":
         ev += ["fS", "z"]
+    elif end.endswith("reply"):
+        closer, replier = ("C", "S") if end[0] == "c" else ("S", "C")
+        last = s["last"]
+        for ch in last["c" if closer == "C" else "s"]:
+            ev.append("s%s:%s" % (closer, hx(chunk_bytes(ch))))
+        ev += ["f" + closer, "z"]
+        for ch in last["s" if closer == "C" else "c"]:
+            ev.append("s%s:%s" % (replier, hx(chunk_bytes(ch))))
+        ev.append("z")
     else:
         closer, streamer = ("C", "S") if end[0] == "c" else ("S", "C")
         last = s["last"]
@@ -225,6 +241,15 @@ def scripts(s, rng):
         cs += [("shut",), ("eof",)]; ss += [("eof",)]
     elif end == "s_half":
         ss += [("shut",), ("eof",)]; cs += [("eof",)]
+    elif end.endswith("reply"):
+        last = s["last"]
+        closer, replier = (cs, ss) if end[0] == "c" else (ss, cs)
+        for ch in last["c" if end[0] == "c" else "s"]:
+            closer.append(("send", chunk_bytes(ch), 0))
+        closer += [("shut",), ("eof",)]
+        replier.append(("eof",))
+        for ch in last["s" if end[0] == "c" else "c"]:
+            replier.append(("send", chunk_bytes(ch), 0))
     else:
         last = s["last"]
         closer, streamer = (cs, ss) if end[0] == "c" else (ss, cs)
@@ -327,12 +352,21 @@ def oracle(s, obs):
             continue
         if got == summ(sent):
             continue
+        if end.endswith("reply") and ((name == "s2c" and end[0] == "c") or (name == "c2s" and end[0] == "s")):
+            reply = all_bytes(s["last"]["s" if end[0] == "c" else "c"])
+            if reply and got == summ(sent[:len(sent) - len(reply)]):
+                return ("oracle:half-close-reply-lost",
+                        "the %s half-closed after sending and kept reading; the %d bytes the %s sent after seeing that EOF "
+                        "never arrived (Squid closes both connections on the first FIN)"
+                        % ("client" if end[0] == "c" else "server", len(reply), who))
         n = int(got.split(":")[0])
         if n < len(sent):
             return ("oracle:%s-bytes-lost" % name, "only %d of the %d bytes sent by the %s arrived" % (n, len(sent), who))
         if n > len(sent):
             return ("oracle:%s-bytes-inserted" % name, "%d bytes arrived although the %s sent only %d" % (n, who, len(sent)))
         return ("oracle:%s-bytes-altered" % name, "the %d bytes sent by the %s arrived altered or reordered" % (n, who))
+    if end.endswith("reply"):
+        pass
     if end[0] == "c" and f["seof"] != "1":
         return ("oracle:close-not-relayed", "the client closed after sending, but the server never saw the close")
     if end[0] == "s" and f["ceof"] != "1":
